@@ -546,3 +546,125 @@ theorem rt_bool (p : Params) (x : Bool) (hn : ∀ n, p.tagNumber = some n → n 
   all_goals (intros; simp_all)
 
 end Chf.Ber
+
+namespace Chf.Ber
+open Chf
+
+def untagged (p : Params) : Params := { p with tagNumber := none, explicit := false }
+
+theorem finish_untagged (p : Params) (c : Bool) (tag : Nat) (content : Bytes) (h : p.tagNumber = none) :
+    finish p c tag content = tlv 0 c tag content := by
+  unfold finish; rw [h]
+
+/-- `enter` on an element the encoder finished: the (possibly unwrapped) octets are again an element finished
+    under the returned parameters, which are the given ones or their untagged form -/
+theorem enter_finish' (t : Ty) (p : Params) (c : Bool) (tag : Nat) (content : Bytes)
+    (hexp : expectedTag p (stripPtr t) = some tag ∨ expectedTag p (stripPtr t) = none)
+    (hexp' : expectedTag (untagged p) (stripPtr t) = some tag ∨ expectedTag (untagged p) (stripPtr t) = none)
+    (hnc : isChoiceTy t = false)
+    (htag : tag < 9223372036854775808)
+    (hn : ∀ n, p.tagNumber = some n → n < 9223372036854775808)
+    (hlen : content.length + 44 < 9223372036854775808) :
+    ∃ p' tal, enter t p (finish p c tag content) = .ok (finish p' c tag content, p', tal) ∧
+      (p' = p ∨ p' = untagged p) := by
+  unfold enter
+  cases hp : p.tagNumber with
+  | none =>
+    rw [finish_untagged p c tag content hp]
+    have hpar := tlv_parse 0 c tag content [] (by decide) htag (by omega)
+    rw [List.append_nil] at hpar
+    rw [hpar]
+    simp only [tlv_length, Nat.lt_irrefl, gt_iff_lt, if_false]
+    have htok : tagOk t p ⟨0, c, tag, content.length, (header 0 c tag content.length).length⟩ = true := by
+      rcases hexp with h | h <;> simp [tagOk, hp, h]
+    have hnu : needsUnwrap t p = false := by simp [needsUnwrap, hp]
+    simp only [htok, Bool.not_true, Bool.false_eq_true, if_false, hnu]
+    exact ⟨p, _, by rw [finish_untagged p c tag content hp], Or.inl rfl⟩
+  | some n =>
+    have hn' := hn n hp
+    by_cases hex : p.explicit = true
+    · have hfin : finish p c tag content = tlv 2 true n (tlv 0 c tag content) := by
+        unfold finish; rw [hp]; simp [hex]
+      rw [hfin]
+      have hin : (tlv 0 c tag content).length < 9223372036854775808 := by
+        rw [tlv_length]; have := header_length_le 0 c tag content.length; omega
+      have hpar := tlv_parse 2 true n (tlv 0 c tag content) [] (by decide) hn' hin
+      rw [List.append_nil] at hpar
+      rw [hpar]
+      simp only [tlv_length, Nat.lt_irrefl, gt_iff_lt, if_false]
+      have htok : tagOk t p ⟨2, true, n, (header 0 c tag content.length).length + content.length,
+          (header 2 true n ((header 0 c tag content.length).length + content.length)).length⟩ = true := by
+        simp [tagOk, hp]
+      have hnu : needsUnwrap t p = true := by simp [needsUnwrap, hp, hex, hnc]
+      simp only [htok, Bool.not_true, Bool.false_eq_true, if_false, hnu, if_true]
+      unfold enterInner
+      have hsub : sub (tlv 2 true n (tlv 0 c tag content))
+          (header 2 true n ((header 0 c tag content.length).length + content.length)).length
+          ((header 2 true n ((header 0 c tag content.length).length + content.length)).length +
+            ((header 0 c tag content.length).length + content.length)) = .ok (tlv 0 c tag content) := by
+        have := sub_at (header 2 true n (tlv 0 c tag content).length) (tlv 0 c tag content) []
+        simp only [List.append_nil, tlv_length] at this
+        unfold tlv at this ⊢
+        simp only [List.length_append] at this ⊢
+        exact this
+      rw [hsub]
+      simp only
+      have hpar2 := tlv_parse 0 c tag content [] (by decide) htag (by omega)
+      rw [List.append_nil] at hpar2
+      rw [hpar2]
+      simp only [tlv_length, Nat.lt_irrefl, gt_iff_lt, if_false]
+      have htok2 : tagOk t { p with tagNumber := none, explicit := false }
+          ⟨0, c, tag, content.length, (header 0 c tag content.length).length⟩ = true := by
+        unfold untagged at hexp'
+        rcases hexp' with h | h <;> simp [tagOk, h]
+      simp only [htok2, if_true]
+      refine ⟨untagged p, ⟨0, c, tag, content.length, (header 0 c tag content.length).length⟩, ?_, Or.inr rfl⟩
+      rw [finish_untagged (untagged p) c tag content rfl]
+      rfl
+    · have hfin : finish p c tag content = tlv 2 c n content := by
+        unfold finish; rw [hp]; simp [hex]
+      rw [hfin]
+      have hpar := tlv_parse 2 c n content [] (by decide) hn' (by omega)
+      rw [List.append_nil] at hpar
+      rw [hpar]
+      simp only [tlv_length, Nat.lt_irrefl, gt_iff_lt, if_false]
+      have htok : tagOk t p ⟨2, c, n, content.length, (header 2 c n content.length).length⟩ = true := by
+        simp [tagOk, hp]
+      have hnu : needsUnwrap t p = false := by simp [needsUnwrap, hp, hex]
+      simp only [htok, Bool.not_true, Bool.false_eq_true, if_false, hnu]
+      exact ⟨p, _, by rw [hfin], Or.inl rfl⟩
+
+/-- Value/List wrapper structs are transparent for an element finished with universal tag `tag` -/
+theorem unmarshal_wrap_finish (t : Ty) (p : Params) (c : Bool) (tag : Nat) (content : Bytes)
+    (htag : tag < 9223372036854775808)
+    (hn : ∀ n, p.tagNumber = some n → n < 9223372036854775808)
+    (hlen : content.length + 44 < 9223372036854775808) :
+    ∃ p', (p' = p ∨ p' = untagged p) ∧
+      unmarshal (.wrap t) p (finish p c tag content) = unmarshal t p' (finish p' c tag content) := by
+  obtain ⟨p', tal, he, hp'⟩ := enter_finish' (.wrap t) p c tag content (Or.inr rfl) (Or.inr rfl) rfl htag hn hlen
+  refine ⟨p', hp', ?_⟩
+  rw [unmarshal]
+  simp only [he]
+
+
+/-- a wrapper struct round-trips whenever the wrapped primitive does under every parameter set -/
+theorem wrap_rt (t : Ty) (v : Val) (c : Bool) (tagf : Params → Nat) (content : Bytes)
+    (hmar : ∀ q, marshal t q v = .ok (finish q c (tagf q) content))
+    (htagf : ∀ q, tagf (untagged q) = tagf q)
+    (p : Params) (hn : ∀ n, p.tagNumber = some n → n < 9223372036854775808)
+    (hrt : ∀ q, (q = p ∨ q = untagged p) → unmarshal t q (finish q c (tagf q) content) = .ok v)
+    (htag : tagf p < 9223372036854775808) (hlen : content.length + 44 < 9223372036854775808) :
+    ∀ b, marshal (.wrap t) p v = .ok b → unmarshal (.wrap t) p b = .ok v := by
+  intro b hm
+  rw [marshal, hmar p] at hm
+  simp only [Res.ok.injEq] at hm
+  subst hm
+  obtain ⟨p', hp', he⟩ := unmarshal_wrap_finish t p c (tagf p) content htag hn hlen
+  rw [he]
+  rcases hp' with rfl | rfl
+  · exact hrt _ (Or.inl rfl)
+  · have := hrt (untagged p) (Or.inr rfl)
+    rw [htagf] at this
+    exact this
+
+end Chf.Ber
